@@ -221,11 +221,11 @@ def run_ple(qt, empi, order, history=False):
     return quiet(est.calc_estimate, qt, empi, is_computation_time_required=history)
 
 
-def run_lme(qt, empi, loss, algo, history=True, func_proj=None, **opt):
+def run_lme(qt, empi, loss, algo, history=True, func_proj=None, mode_weight="identity", **opt):
     """returns (result, printed text, loss object, algorithm object, option object)"""
     L, LO = LOSSES[loss]
     A, AO = ALGOS[algo]
-    lo = LO("identity")
+    lo = LO(mode_weight)
     est = LossMinimizationEstimator()
     lobj, aobj, aopt = L(qt.num_variables), (A(func_proj) if func_proj is not None else A()), AO(**opt)
     r, msg = quiet(est.calc_estimate, qt, empi, lobj, lo, aobj, aopt,
